@@ -35,8 +35,28 @@ def run(tier, seed):
     cpath = os.path.join(wd, "cases.ndjson")
     vlib.write_ndjson(cpath, cases)
     tpath = os.path.join(wd, "trace.ndjson")
-    summ = vlib.harness(["c03", "--behaviours", cpath, "--out", tpath], timeout=3000)
-    tr = vlib.read_ndjson(tpath)
+    # the harness ends with exit code 3 when the stack does not return from a poll for 20 s after an injection (a livelock
+    # inside the code under test); the case is recorded and the remaining cases are run
+    tr, hangs, start, summ = [], [], 0, {"cases": 0, "injections": 0}
+    while start < len(cases):
+        p = vlib.sh([vlib.VH, "c03", "--behaviours", cpath, "--out", tpath, "--from", str(start)], cwd=vlib.ROOT, timeout=3000, check=False)
+        tr += vlib.read_ndjson(tpath)
+        if p.returncode == 0:
+            s1 = json.loads([l for l in p.stdout.strip().splitlines() if l.startswith("{")][-1])
+            summ = {"cases": s1["cases"], "injections": summ["injections"] + s1["injections"]}
+            break
+        if p.returncode != 3 or not os.path.exists(tpath + ".hang"):
+            raise vlib.ToolError("harness c03 exited %d:\n%s" % (p.returncode, p.stdout[-3000:]))
+        note = json.load(open(tpath + ".hang"))["note"]
+        ci, label = note.split(":", 1)
+        hangs.append((int(ci), label))
+        if len(hangs) >= 3:
+            break
+        start = int(ci) + 1
+    for ci, label in hangs:
+        c = cases[ci]
+        ck.violation("C03|hang|%s|%s|len%d|%s" % (c["mode"], c["shape"], c["len"], c["cls"]),
+                     "after injection %s the receiving stack never returned from its poll (20 s of wall time): the datagram was not rejected" % label, {"case": c, "label": label})
     n_mut = n_gen = 0
     for t in tr:
         c = cases[t["case"]]
@@ -52,6 +72,8 @@ def run(tier, seed):
                 ck.violation("C03|wrong-sender|" + tag, "a genuine datagram was delivered on a session of another peer than its sender", {"case": c, "real": t})
             continue
         n_mut += 1
+        if t.get("storm") and t["silent"] and not t["delivered"]:
+            raise vlib.ToolError("the stack polls itself for ever after injection %s of case %s, with nothing else observable" % (t["label"], json.dumps(c)))
         expect = c["deliver"] if t["label"] in ("mut", "mut2") else False
         if t["delivered"] != expect:
             ck.violation("C03|%s|%s" % ("delivered-unauthentic" if t["delivered"] else "rejected-authentic", tag),
